@@ -1,6 +1,7 @@
 package an
 
 import (
+	"go/constant"
 	"fmt"
 	"go/token"
 	"go/types"
@@ -27,7 +28,36 @@ func PathConds(b *ssa.BasicBlock) ([][]Lit, bool) {
 	fn := b.Parent()
 	var out [][]Lit
 	onPath := map[*ssa.BasicBlock]bool{}
+	var path []*ssa.BasicBlock
 	okAll := true
+	// a condition that is a merge of values (a flag set on some ways, the result of a
+	// short-circuit `a || b`) is, on a given path, the value its way into the merge carries
+	var resolve func(c ssa.Value, pol bool, depth int) (ssa.Value, bool)
+	resolve = func(c ssa.Value, pol bool, depth int) (ssa.Value, bool) {
+		if depth > 6 {
+			return c, pol
+		}
+		switch x := c.(type) {
+		case *ssa.UnOp:
+			if x.Op == token.NOT {
+				return resolve(x.X, !pol, depth+1)
+			}
+		case *ssa.Phi:
+			jb := x.Block()
+			for i := len(path) - 1; i > 0; i-- {
+				if path[i] != jb {
+					continue
+				}
+				for k, pr := range jb.Preds {
+					if pr == path[i-1] && k < len(x.Edges) {
+						return resolve(x.Edges[k], pol, depth+1)
+					}
+				}
+				break
+			}
+		}
+		return c, pol
+	}
 	var dfs func(cur *ssa.BasicBlock, lits []Lit)
 	dfs = func(cur *ssa.BasicBlock, lits []Lit) {
 		if !okAll {
@@ -44,11 +74,23 @@ func PathConds(b *ssa.BasicBlock) ([][]Lit, bool) {
 			return
 		}
 		onPath[cur] = true
-		defer func() { onPath[cur] = false }()
+		path = append(path, cur)
+		defer func() { onPath[cur] = false; path = path[:len(path)-1] }()
 		if len(cur.Instrs) > 0 {
 			if iff, ok := cur.Instrs[len(cur.Instrs)-1].(*ssa.If); ok && cur.Succs[0] != cur.Succs[1] {
-				dfs(cur.Succs[0], append(lits, Lit{iff.Cond, true}))
-				dfs(cur.Succs[1], append(lits, Lit{iff.Cond, false}))
+				c, pol := resolve(iff.Cond, true, 0)
+				if k, isC := c.(*ssa.Const); isC && k.Value != nil && k.Value.Kind() == constant.Bool {
+					// decided by the way we came: only one branch continues this path
+					v := constant.BoolVal(k.Value) == pol
+					if v {
+						dfs(cur.Succs[0], lits)
+					} else {
+						dfs(cur.Succs[1], lits)
+					}
+					return
+				}
+				dfs(cur.Succs[0], append(lits, Lit{c, pol}))
+				dfs(cur.Succs[1], append(lits, Lit{c, !pol}))
 				return
 			}
 		}
@@ -273,27 +315,10 @@ func ComparePred(b *ssa.BasicBlock, domain map[string][]int64, assume []string, 
 		}
 		if i == len(terms) {
 			res.Combos++
-			got := false
-			for _, conj := range dnf {
-				all := true
-				for _, l := range conj {
-					v, known := evalLit(l, env, as)
-					if !known && exitedLoopLit(l, b) {
-						continue
-					}
-					if !known {
-						res.Undec = "cannot evaluate atom " + NormAtom(l.Cond, l.Pol)
-						return
-					}
-					if !v {
-						all = false
-						break
-					}
-				}
-				if all {
-					got = true
-					break
-				}
+			got, undec := reachUnder(dnf, env, as, b)
+			if undec != "" {
+				res.Undec = undec
+				return
 			}
 			if got != spec(env) {
 				res.OK = false
@@ -495,26 +520,13 @@ func ComparePredSet(b *ssa.BasicBlock, domain map[string][]int64, assume []strin
 		as[a] = true
 	}
 	enumDomain(domain, func(env map[string]int64, key string) bool {
-		for _, conj := range dnf {
-			allTrue := true
-			for _, l := range conj {
-				v, known := evalLit(l, env, as)
-				if !known && exitedLoopLit(l, b) {
-					continue
-				}
-				if !known {
-					out.Undec = "cannot evaluate atom " + NormAtom(l.Cond, l.Pol)
-					return false
-				}
-				if !v {
-					allTrue = false
-					break
-				}
-			}
-			if allTrue {
-				out.True[key] = true
-				break
-			}
+		got, undec := reachUnder(dnf, env, as, b)
+		if undec != "" {
+			out.Undec = undec
+			return false
+		}
+		if got {
+			out.True[key] = true
 		}
 		return true
 	})
@@ -595,4 +607,87 @@ func exitedLoopLit(l Lit, b *ssa.BasicBlock) bool {
 		}
 	}
 	return false
+}
+
+
+// reachUnder: is the block reached under env?  A branch condition that the domain does not
+// determine (a test on something the specification does not mention) is left free: the
+// answer must then be the same whichever way such tests go — they sit on a diamond that
+// re-joins before the block — otherwise the comparison is undecided and says which test.
+func reachUnder(dnf [][]Lit, env map[string]int64, as map[string]bool, b *ssa.BasicBlock) (bool, string) {
+	type lv struct {
+		known, val bool
+		key      string
+		pol      bool
+	}
+	free := map[string]bool{}
+	var order []string
+	ev := make([][]lv, len(dnf))
+	for i, conj := range dnf {
+		for _, l := range conj {
+			v, known := evalLit(l, env, as)
+			if !known && exitedLoopLit(l, b) {
+				continue
+			}
+			x := lv{known: known, val: v}
+			if !known {
+				x.key, x.pol = NormAtom(l.Cond, true), l.Pol
+				if !free[x.key] {
+					free[x.key] = true
+					order = append(order, x.key)
+				}
+			}
+			ev[i] = append(ev[i], x)
+		}
+	}
+	eval := func(assign map[string]bool) bool {
+		for _, conj := range ev {
+			all := true
+			for _, x := range conj {
+				v := x.val
+				if !x.known {
+					v = assign[x.key] == x.pol
+				}
+				if !v {
+					all = false
+					break
+				}
+			}
+			if all {
+				return true
+			}
+		}
+		return false
+	}
+	if len(order) == 0 {
+		return eval(nil), ""
+	}
+	if len(order) > 8 {
+		return false, "cannot evaluate atom " + order[0]
+	}
+	first, have := false, false
+	for m := 0; m < 1<<len(order); m++ {
+		assign := map[string]bool{}
+		for k, key := range order {
+			assign[key] = m&(1<<k) != 0
+		}
+		g := eval(assign)
+		if !have {
+			first, have = g, true
+		} else if g != first {
+			// which one matters?
+			for _, key := range order {
+				a2 := map[string]bool{}
+				for k, v := range assign {
+					a2[k] = v
+				}
+				a2[key] = !a2[key]
+				if eval(a2) != g {
+					return false, "cannot evaluate atom " + key + " (the outcome depends on it and the specification does not mention it)"
+				}
+			}
+			return false, "cannot evaluate atom " + order[0]
+		}
+	}
+	return first, ""
 }
